@@ -224,6 +224,9 @@ func vC02SharedCase(t *testing.T, tr *vC02Trace, g *vC02Gen, z *vC02Zone, script
 	if cutHeavy {
 		nops = 20 + r.Intn(10)
 	}
+	if os.Getenv("VERIF_TIER") == "thorough" && r.Intn(3) == 0 { // thorough: histories two to three times as long
+		nops = nops*2 + r.Intn(nops)
+	}
 	oversize := false
 	if script != nil {
 		nops = len(script.Ops)
